@@ -60,8 +60,13 @@ class P(Prop):
             comps, swbs = plant["comps"], plant["swbs"]
             if fam == "unfed":
                 new = max(swbs) + 1
-                comps.append({"name": "lonely", "cls": "load", "swb": new, "rated": Fraction(500)})
-                inp["comps"].append({"pin": [Fraction(10)] * n, "set": "from_output"})
+                who = rng.choice(["load", "load", "pti", "pti+load"])     # a PTI/PTO is neither a source nor a storage
+                if "pti" in who:
+                    comps.append({"name": "lonely_pti", "cls": "ptipto", "swb": new, "rated": Fraction(500)})
+                    inp["comps"].append({"status": [True] * n, "lsm": [Fraction(1)] * n, "pin": [Fraction(0)] * n})
+                if "load" in who:
+                    comps.append({"name": "lonely", "cls": "load", "swb": new, "rated": Fraction(500)})
+                    inp["comps"].append({"pin": [Fraction(10)] * n, "set": "from_output"})
                 plant["breakers"].append([swbs[0], new])
                 if inp.get("sts") is not None:
                     inp["sts"] = [r + [True] for r in inp["sts"]]
@@ -106,7 +111,11 @@ class P(Prop):
             elif fam == "rated":
                 idx = [i for i, d in enumerate(comps) if d["cls"] in ("load", "drive", "generator", "battery", "supercap")]
                 if idx:
-                    comps[rng.choice(idx)]["rated"] = Fraction(rng.choice([0, -100]))
+                    d = comps[rng.choice(idx)]
+                    if d["cls"] == "drive":
+                        # the drive's own rating is not positive while its stages are fine
+                        d["stages"] = [{"rated": Fraction(d["rated"]), "eff": d.get("eff", [Fraction(95, 100)])}]
+                    d["rated"] = Fraction(rng.choice([0, 0, -100]))
                 else:
                     case["family"] = "valid"
             elif fam == "rated_engine":
@@ -255,6 +264,9 @@ class P(Prop):
             comps.append(f"mkc {names.setdefault(d['name'], len(names))}%nat {PT[k]}%nat {core.coq_bool(ok)} ({int(d['swb'])})%Z")
             if d["cls"] in ("load", "generator", "battery", "supercap") or (d["cls"] == "drive" and not d.get("stages")):
                 verdicts.append(f"component_verdict {core.coq_q(d['rated'])} {coq_curve(d.get('eff', [Fraction(95, 100)]))}")
+            elif d["cls"] == "drive" and len(d.get("stages") or []) == 1:
+                # one stage with its own (valid) rating: the verdict on the serial system is that on its own rating
+                verdicts.append(f"component_verdict {core.coq_q(d['rated'])} {coq_curve(d['stages'][0]['eff'])}")
         brk = core.coq_list([f"(({int(a)})%Z, ({int(b)})%Z)" for a, b in plant["breakers"]])
         verdicts.append(f"construct_electric {{| e_comps := {core.coq_list(comps)}; e_breakers := {brk} |}}")
         n = inp["n"]
